@@ -41,10 +41,22 @@ def value_of(params) -> float:
     return ((s * 7 + len(params)) % 97) / 8.0 - 5.0
 
 
+def special_value(v, mode):
+    """an evaluator that misbehaves numerically for some individuals (NaN / infinite objective values): what the operators compute from such
+    values is not specified, but they still must not touch their input or anything recorded earlier (C11)"""
+    k = int(v * 8) % 3
+    if mode == "nan":
+        return float("nan") if k == 0 else v
+    if mode == "inf":
+        return float("inf") if k == 0 else (float("-inf") if k == 1 and int(v * 8) % 2 == 0 else v)
+    return float("nan") if k == 0 else (float("inf") if k == 1 else v)
+
+
 class FakeEvaluator(BaseCircuitEvaluator):
-    def __init__(self, n_qubits, delays=None):
+    def __init__(self, n_qubits, delays=None, special=None):
         self._n = n_qubits
         self.delays = delays
+        self.special = special
         self.calls = 0
         self.lock = threading.Lock()
 
@@ -54,6 +66,8 @@ class FakeEvaluator(BaseCircuitEvaluator):
             k = self.calls
         if self.delays:
             time.sleep(self.delays[k % len(self.delays)])
+        if self.special:
+            return [special_value(value_of(p), self.special) for p in parameter_values]
         return [value_of(p) for p in parameter_values]
 
     @property
@@ -182,7 +196,9 @@ def pop_struct(pop):
 
 
 def result_struct(res):
-    return (pop_struct(res.population), tuple(res.expectation_values), G.indiv_struct(res.best_individual), res.best_expectation_value)
+    # floats by repr: NaN must compare equal to itself in a snapshot
+    return (pop_struct(res.population), tuple(repr(float(v)) for v in res.expectation_values), G.indiv_struct(res.best_individual),
+            repr(float(res.best_expectation_value)))
 
 
 # ---- operators ----------------------------------------------------------------------------------------------
@@ -224,11 +240,11 @@ def gen_sequence(rng):
     return seq
 
 
-def gen_population(rng):
+def gen_population(rng, force_colliding=False):
     m = rng.randrange(6)
     n = rng.choice([1, 1, 2, 2, 3])
     size = rng.randint(2, 7)
-    if m <= 3:
+    if m <= 3 and not force_colliding:
         return EVQEPopulation.random_population(n, rng.randint(1, 3), size, True, rng.randrange(2**31))
     inds = []
     for _ in range(size):
@@ -239,14 +255,15 @@ def gen_population(rng):
             inds.append(EVQEIndividual(n, layers, tuple(rng.randint(-8, 8) / 4 for _ in range(sum(l.n_parameters for l in layers)))))
     if m == 5:
         inds = inds + [inds[0], inds[-1]]  # duplicates
-    if rng.random() < 0.25:
+    if force_colliding or rng.random() < 0.25:
         # a hash-equal but different pair (hash(-1.0) == hash(-2.0); EVQEIndividual.__eq__ compares hashes)
         x = next((y for y in inds if y.parameter_values), None)
         if x is not None:
             k = rng.randrange(len(x.parameter_values))
             va = tuple(-1.0 if i == k else float(v) for i, v in enumerate(x.parameter_values))
             vb = tuple(-2.0 if i == k else float(v) for i, v in enumerate(x.parameter_values))
-            inds = inds + [EVQEIndividual(x.n_qubits, x.layers, va), EVQEIndividual(x.n_qubits, x.layers, vb)]
+            pair = [EVQEIndividual(x.n_qubits, x.layers, va), EVQEIndividual(x.n_qubits, x.layers, vb)]
+            inds = pair + inds if rng.random() < 0.5 else inds + pair
     return EVQEPopulation(tuple(inds), None, None, None)
 
 
@@ -329,13 +346,16 @@ def check_partition(pop):
 class Run:
     """one operator sequence on one initial population"""
 
-    def __init__(self, ctx, prop, rng, workers):
+    def __init__(self, ctx, prop, rng, workers, special=None):
         self.ctx, self.prop, self.rng = ctx, prop, rng
+        self.special = special  # "nan" | "inf" | "mixed": numerically misbehaving evaluator; only the C11 oracles apply
         self.tk = G.Tokens()
         self.snapshots = []  # (label, object, structural snapshot at the time)
         self.workers = workers
 
     def violate(self, p, what, inp, observed=None):
+        if self.special and p != "C11":
+            return
         if p == self.prop:
             self.ctx.violate(what, inp, observed, key=f"{p}:{what[:70]}")
         else:
@@ -353,7 +373,7 @@ class Run:
         drv = ctx.lean("Evqe")
         nq = pop.individuals[0].n_qubits
         delays = [0.0, 0.002, 0.0, 0.001] if self.workers > 1 else None
-        evaluator = FakeEvaluator(nq, delays)
+        evaluator = FakeEvaluator(nq, delays, self.special)
         events = []
         ctxt = OperatorContext(
             circuit_evaluator=evaluator,
@@ -370,7 +390,8 @@ class Run:
                 self.snapshots.append((f"the input population of operator {step} ({kind})", pop, pin_struct, pop_struct))
                 n_ev = len(events)
                 pj_in = pop_json(pop, tk)
-                inp = {"sequence": seq[: step + 1], "step": step, "kind": kind, "pop": pj_in}
+                inp = {"sequence": seq[: step + 1], "step": step, "kind": kind, "pop": pj_in,
+                       "token_values": {str(k): v for k, v in tk.back.items()}}  # parameter values are shown as tokens (class * 1024 + index)
                 try:
                     out = op.apply_operator(pop, ctxt)
                     err = None
@@ -379,8 +400,10 @@ class Run:
                 except Exception as e:  # noqa: BLE001
                     out, err = None, "exc:" + type(e).__name__ + ":" + str(e)[:80]
                 new_events = events[n_ev:]
-                ctx.case({"kind": kind, "pop": pj_in, "step": step}, nontrivial=len(pop.individuals) >= 3,
-                         tags=[kind, f"workers:{self.workers}", "err" if err else "ok"])
+                if self.special:
+                    inp["evaluator_returns"] = self.special
+                ctx.case({"kind": kind, "pop": pj_in, "step": step, "special": self.special}, nontrivial=len(pop.individuals) >= 3,
+                         tags=[kind, f"workers:{self.workers}", "err" if err else "ok"] + (["evaluator:" + self.special] if self.special else []))
                 # ---------------- oracles (C10) --------------------------------------------------------
                 expected_err = kind.startswith("selection") and (pop.species_members is None or pop.species_membership is None or pop.species_representatives is None)
                 if err is not None and not (expected_err and err == "selectionWithoutSpeciation"):
@@ -457,7 +480,7 @@ class Run:
                     elif out.species_representatives is not pop.species_representatives or out.species_members is not None:
                         ctx.disagree("heap model: selection/mutation hand on the representative list reference", inp, "copied", "shared")
                 # ---------------- model correspondence ------------------------------------------------------
-                if drv is not None and (err is None or err == "selectionWithoutSpeciation"):
+                if drv is not None and not self.special and (err is None or err == "selectionWithoutSpeciation"):
                     try:
                         req = model_request(kind, info, pop, tk, rec, start, op, evals)
                     except Exception as e:  # noqa: BLE001
@@ -496,6 +519,24 @@ def run_cluster(ctx, prop):
         if ctx.out_of_time():
             break
         Run(ctx, prop, rng, workers=rng.choice([1, 1, 3])).run(gen_population(rng), gen_sequence(rng))
+    # a numerically misbehaving evaluator (NaN / infinite values for some individuals): C11's clauses only
+    if prop == "C11":
+        for it in range(ctx.n(16, 200)):
+            if ctx.out_of_time():
+                break
+            pop = gen_population(rng)
+            seq = ["speciation", rng.choice(["selection-roulette", "selection-tournament", "selection-tournament"])] + gen_sequence(rng)[: rng.randint(0, 5)]
+            Run(ctx, prop, rng, workers=rng.choice([1, 3]), special=rng.choice(["nan", "nan", "inf", "mixed"])).run(pop, seq)
+    # populations with a pair of different but hash-equal individuals (EVQEIndividual.__eq__ is hash equality), evaluated and selected from
+    # before any mutation touches the pair: dict/set keyed shortcuts over individuals would merge the two
+    for it in range(ctx.n(12, 150)):
+        if ctx.out_of_time():
+            break
+        pop = gen_population(rng, force_colliding=True)
+        if any(x.parameter_values for x in pop.individuals):
+            ctx.dist["hash-colliding pair evaluated first"] += 1
+            tail = gen_sequence(rng)[: rng.randint(0, 4)]
+            Run(ctx, prop, rng, workers=rng.choice([1, 3])).run(pop, ["speciation", rng.choice(["selection-roulette", "selection-tournament"])] + tail)
     # the repaired findings: 1-qubit individuals through parameter search and removal (F5, F6), history aliasing (F7)
     pop = EVQEPopulation.random_population(1, 3, 4, True, 11)
     Run(ctx, prop, rng, 1).run(pop, ["speciation", "selection-tournament", "last-layer", "removal", "speciation", "selection-roulette", "param-search", "topological", "speciation"])
@@ -512,10 +553,13 @@ def replay_case(ctx, prop, case):
     inp = case.get("case", case).get("input", case.get("input"))
     pj = inp["pop"]
 
+    tv = inp.get("token_values", {})
+
     def mk(xj):
-        return EVQEIndividual(xj["n"], tuple(G.layer_obj(l) for l in xj["layers"]), tuple(float(v) * 0.25 for v in xj["values"]))
+        return EVQEIndividual(xj["n"], tuple(G.layer_obj(l) for l in xj["layers"]),
+                              tuple(float(tv[str(v)]) if str(v) in tv else float(v) * 0.25 for v in xj["values"]))
 
     pop = EVQEPopulation(tuple(mk(x) for x in pj["inds"]), None, None, None)
     seq = inp.get("sequence", [inp["kind"]])
-    Run(ctx, prop, random.Random(0), 1).run(pop, seq if pj.get("reps") is None else ["speciation"] + seq[-1:])
+    Run(ctx, prop, random.Random(0), 1, special=inp.get("evaluator_returns")).run(pop, seq if pj.get("reps") is None else ["speciation"] + seq[-1:])
     ctx.extra.pop("_other", None)
